@@ -73,3 +73,14 @@ A(M("c16-default-missing", "C16", C, "orders = {region: 0 for region in range(le
 A(M("c16-early-exit", "C16", C, "            return [self.fcfs]\n", "            return []\n", "early-exit"))
 A(M("c16-mark-wrong", "C16", C, "available[orders[permutation[j]]] = False", "available[orders[permutation[i]]] = False", "greedy-mark"))
 A(M("c16-bfs-silent", ["C16", "C01"], C, "                while stack:\n                    current = stack[-1]\n                    next_vertex = None\n\n                    for neighbor in graph[current]:\n                        if not visited[neighbor]:\n                            next_vertex = neighbor\n                            break\n\n                    if next_vertex is not None:\n                        visited[next_vertex] = True\n                        stack.append(next_vertex)\n                        components[-1].append(next_vertex)\n                    else:\n                        stack.pop()\n", "                while stack:\n                    current = stack.pop()\n                    for neighbor in graph[current]:\n                        if not visited[neighbor]:\n                            visited[neighbor] = True\n                            stack.append(neighbor)\n                            components[-1].append(neighbor)\n", kind="silent"))
+
+# ---------------------------------------------------------------- C12
+A(M("c12-shallow-copy", "C12", C, "        entries = [\n            Entry(entry.index_, entry.sequence, entry.pair) for entry in self.entries\n        ]\n", "        entries = self.entries.copy()\n", "receiver-write"))
+A(M("c12-list-copy", "C12", C, "        entries = [\n            Entry(entry.index_, entry.sequence, entry.pair) for entry in self.entries\n        ]\n", "        entries = list(self.entries)\n", "receiver-write"))
+A(M("c12-pairs-clear", "C12", C, "    def without_pseudoknots(self):\n        return BpSeq.from_dotbracket", "    def without_pseudoknots(self):\n        self.pairs.clear()\n        return BpSeq.from_dotbracket", "receiver-write"))
+A(M("c12-sort-entries", "C12", C, "        stems = []\n        entries: List[Entry] = []\n", "        stems = []\n        self.entries.sort()\n        entries: List[Entry] = []\n", "receiver-write"))
+A(M("c12-regex-class", "C12", C, 'r"[\\[\\]\\{\\}\\<\\>A-Za-z]"', 'r"[\\[\\]\\{\\}A-Za-z]"', "pk-class"))
+A(M("c12-isolated-3p", "C12", C, "to_unpair.append(stem.strand3p.first - 1)", "to_unpair.append(stem.strand3p.first)", "isolated-select"))
+A(M("c12-isolated-guard", "C12", C, "            if stem.strand5p.first == stem.strand5p.last:\n                to_unpair", "            if stem.strand5p.first <= stem.strand5p.last:\n                to_unpair", "isolated-select"))
+A(M("c12-stem-mutate-via-elements", "C12", C, "        stems, _, _, _ = self.elements\n        to_unpair = []\n", "        stems, _, _, _ = self.elements\n        stems.reverse()\n        to_unpair = []\n", "receiver-write"))
+A(M("c12-deepcopy-silent", "C12", C, "import itertools\n", "import copy\nimport itertools\n", kind="silent", edits=[("import itertools\n", "import copy\nimport itertools\n"), ("        entries = [\n            Entry(entry.index_, entry.sequence, entry.pair) for entry in self.entries\n        ]\n", "        entries = copy.deepcopy(self.entries)\n")]))
